@@ -8,9 +8,9 @@ use adlt::utils::DltMessageIterator;
 use std::io::Cursor;
 use vharness::*;
 
-type Segs = Vec<(u64, Vec<u8>)>; // (count, block): block repeated count times
+pub type Segs = Vec<(u64, Vec<u8>)>; // (count, block): block repeated count times
 
-fn flatten(s: &Segs) -> Vec<u8> {
+pub fn flatten(s: &Segs) -> Vec<u8> {
     let mut v = vec![];
     for (c, b) in s {
         for _ in 0..*c {
@@ -19,10 +19,10 @@ fn flatten(s: &Segs) -> Vec<u8> {
     }
     v
 }
-fn segs_len(s: &Segs) -> usize {
+pub fn segs_len(s: &Segs) -> usize {
     s.iter().map(|(c, b)| *c as usize * b.len()).sum()
 }
-fn push_bytes(s: &mut Segs, b: &[u8]) {
+pub fn push_bytes(s: &mut Segs, b: &[u8]) {
     if b.is_empty() {
         return;
     }
@@ -34,7 +34,7 @@ fn push_bytes(s: &mut Segs, b: &[u8]) {
     }
     s.push((1, b.to_vec()));
 }
-fn push_segs(s: &mut Segs, t: &Segs) {
+pub fn push_segs(s: &mut Segs, t: &Segs) {
     for (c, b) in t {
         if *c == 0 || b.is_empty() {
             continue;
@@ -48,30 +48,30 @@ fn push_segs(s: &mut Segs, t: &Segs) {
 }
 
 #[derive(Clone, Debug)]
-struct AMsg {
-    secs: u32,
-    micros: u32,
-    secu: [u8; 4],
-    htyp: u8,
-    mcnt: u8,
-    ecu: [u8; 4],
-    sid: [u8; 4],
-    ts: u32,
-    vmm: u8,
-    noar: u8,
-    apid: [u8; 4],
-    ctid: [u8; 4],
-    payload: Segs,
+pub struct AMsg {
+    pub secs: u32,
+    pub micros: u32,
+    pub secu: [u8; 4],
+    pub htyp: u8,
+    pub mcnt: u8,
+    pub ecu: [u8; 4],
+    pub sid: [u8; 4],
+    pub ts: u32,
+    pub vmm: u8,
+    pub noar: u8,
+    pub apid: [u8; 4],
+    pub ctid: [u8; 4],
+    pub payload: Segs,
 }
 impl AMsg {
-    fn hs(&self) -> usize {
+    pub fn hs(&self) -> usize {
         let h = self.htyp;
         4 + if h & 4 != 0 { 4 } else { 0 } + if h & 8 != 0 { 4 } else { 0 } + if h & 16 != 0 { 4 } else { 0 } + if h & 1 != 0 { 10 } else { 0 }
     }
-    fn len(&self) -> usize {
+    pub fn len(&self) -> usize {
         self.hs() + segs_len(&self.payload)
     }
-    fn enc(&self, framing: u8, out: &mut Segs) {
+    pub fn enc(&self, framing: u8, out: &mut Segs) {
         let mut b: Vec<u8> = vec![];
         if framing == 0 {
             b.extend_from_slice(b"DLT\x01");
@@ -102,12 +102,12 @@ impl AMsg {
         push_bytes(out, &b);
         push_segs(out, &self.payload);
     }
-    fn json(&self) -> Value {
+    pub fn json(&self) -> Value {
         json!({"secs": self.secs, "micros": self.micros, "secu": self.secu, "htyp": self.htyp, "mcnt": self.mcnt,
             "ecu": self.ecu, "sid": self.sid, "ts": self.ts, "vmm": self.vmm, "noar": self.noar, "apid": self.apid,
             "ctid": self.ctid, "payload": self.payload})
     }
-    fn from_json(v: &Value) -> AMsg {
+    pub fn from_json(v: &Value) -> AMsg {
         let a4 = |k: &str| -> [u8; 4] {
             let x: Vec<u8> = serde_json::from_value(v[k].clone()).unwrap();
             [x[0], x[1], x[2], x[3]]
@@ -131,13 +131,13 @@ impl AMsg {
 }
 
 #[derive(Clone, Debug)]
-enum Part {
+pub enum Part {
     G(Segs),
     M(AMsg),
 }
 
 #[derive(Clone, Debug)]
-enum Input {
+pub enum Input {
     /// framing 0 = storage, 1 = serial
     Stream { framing: u8, start: u32, parts: Vec<Part> },
     Raw { start: u32, segs: Segs },
@@ -145,18 +145,18 @@ enum Input {
 
 /// what one yielded message looked like
 #[derive(Clone, Debug, PartialEq)]
-struct Item {
-    index: u32,
-    rt: u64,
-    ecu: [u8; 4],
-    ts: u32,
-    htyp: u8,
-    mcnt: u8,
-    len: u16,
-    ext: Option<(u8, u8, [u8; 4], [u8; 4])>,
-    payload: Vec<u8>,
+pub struct Item {
+    pub index: u32,
+    pub rt: u64,
+    pub ecu: [u8; 4],
+    pub ts: u32,
+    pub htyp: u8,
+    pub mcnt: u8,
+    pub len: u16,
+    pub ext: Option<(u8, u8, [u8; 4], [u8; 4])>,
+    pub payload: Vec<u8>,
 }
-fn item_of(m: &DltMessage) -> Item {
+pub fn item_of(m: &DltMessage) -> Item {
     Item {
         index: m.index,
         rt: m.reception_time_us,
@@ -170,17 +170,17 @@ fn item_of(m: &DltMessage) -> Item {
     }
 }
 
-struct Run {
-    items: Vec<Item>,
-    index: u32,
-    processed: usize,
-    skipped: usize,
-    det_storage: bool,
-    det_serial: bool,
-    rest: usize,
+pub struct Run {
+    pub items: Vec<Item>,
+    pub index: u32,
+    pub processed: usize,
+    pub skipped: usize,
+    pub det_storage: bool,
+    pub det_serial: bool,
+    pub rest: usize,
 }
 
-fn run_impl(start: u32, data: &[u8]) -> Result<Run, String> {
+pub fn run_impl(start: u32, data: &[u8]) -> Result<Run, String> {
     let data = data.to_vec();
     catch_loc(move || {
         let total = data.len();
@@ -196,24 +196,24 @@ fn run_impl(start: u32, data: &[u8]) -> Result<Run, String> {
     })
 }
 
-fn cksum(l: &[u8]) -> u32 {
+pub fn cksum(l: &[u8]) -> u32 {
     let mut h: u32 = 7;
     for b in l {
         h = h.wrapping_mul(31).wrapping_add(*b as u32);
     }
     h
 }
-fn o_bytes(l: &[u8]) -> O {
+pub fn o_bytes(l: &[u8]) -> O {
     if l.len() <= 64 {
         O::T(vec![O::L(0), O::bytes(l)])
     } else {
         O::T(vec![O::L(1), O::n(l.len() as u64), O::n(cksum(l)), O::bytes(&l[..8])])
     }
 }
-fn o_c4(c: &[u8; 4]) -> O {
+pub fn o_c4(c: &[u8; 4]) -> O {
     O::n(u32::from_be_bytes(*c))
 }
-fn o_item(i: &Item) -> O {
+pub fn o_item(i: &Item) -> O {
     O::T(vec![
         O::n(i.index),
         O::n(i.rt),
@@ -226,7 +226,7 @@ fn o_item(i: &Item) -> O {
         o_bytes(&i.payload),
     ])
 }
-fn o_run(r: &Result<Run, String>) -> O {
+pub fn o_run(r: &Result<Run, String>) -> O {
     match r {
         Ok(r) => O::T(vec![
             O::L(0),
@@ -238,7 +238,7 @@ fn o_run(r: &Result<Run, String>) -> O {
     }
 }
 
-fn pat_positions(data: &[u8], pat: &[u8; 4]) -> Vec<usize> {
+pub fn pat_positions(data: &[u8], pat: &[u8; 4]) -> Vec<usize> {
     let mut v = vec![];
     if data.len() >= 4 {
         for i in 0..=data.len() - 4 {
@@ -250,14 +250,14 @@ fn pat_positions(data: &[u8], pat: &[u8; 4]) -> Vec<usize> {
     v
 }
 
-struct Built {
-    segs: Segs,
-    data: Vec<u8>,
-    starts: Vec<usize>,
-    garbage_total: usize,
-    last_garbage: usize,
+pub struct Built {
+    pub segs: Segs,
+    pub data: Vec<u8>,
+    pub starts: Vec<usize>,
+    pub garbage_total: usize,
+    pub last_garbage: usize,
 }
-fn build(framing: u8, parts: &[Part]) -> Built {
+pub fn build(framing: u8, parts: &[Part]) -> Built {
     let mut segs: Segs = vec![];
     let mut starts = vec![];
     let mut off = 0usize;
@@ -285,7 +285,7 @@ fn build(framing: u8, parts: &[Part]) -> Built {
     Built { segs, data, starts, garbage_total, last_garbage }
 }
 
-fn expected(framing: u8, idx: u32, m: &AMsg) -> Item {
+pub fn expected(framing: u8, idx: u32, m: &AMsg) -> Item {
     let has = |b: u8| m.htyp & b != 0;
     Item {
         index: idx,
@@ -307,7 +307,7 @@ fn expected(framing: u8, idx: u32, m: &AMsg) -> Item {
 }
 
 /// the property statement, checked on what the implementation did.  Returns (verdict, in_domain)
-fn oracle(inp: &Input, b: Option<&Built>, total: usize, r: &Result<Run, String>) -> (Verdict, bool) {
+pub fn oracle(inp: &Input, b: Option<&Built>, total: usize, r: &Result<Run, String>) -> (Verdict, bool) {
     let fail = |c: &str, d: String| Verdict::Fail { clause: c.into(), detail: d };
     match inp {
         Input::Raw { .. } => {
@@ -370,7 +370,7 @@ fn oracle(inp: &Input, b: Option<&Built>, total: usize, r: &Result<Run, String>)
     }
 }
 
-fn input_json(inp: &Input) -> Value {
+pub fn input_json(inp: &Input) -> Value {
     match inp {
         Input::Raw { start, segs } => json!({"kind": "raw", "start": start, "segs": segs}),
         Input::Stream { framing, start, parts } => {
@@ -382,7 +382,7 @@ fn input_json(inp: &Input) -> Value {
         }
     }
 }
-fn input_from_json(c: &Value) -> Input {
+pub fn input_from_json(c: &Value) -> Input {
     let start = c["start"].as_u64().unwrap() as u32;
     if c["kind"] == "raw" {
         Input::Raw { start, segs: serde_json::from_value(c["segs"].clone()).unwrap() }
@@ -398,11 +398,11 @@ fn input_from_json(c: &Value) -> Input {
     }
 }
 
-fn coq_segs(s: &Segs) -> String {
+pub fn coq_segs(s: &Segs) -> String {
     clist(&s.iter().map(|(c, b)| format!("({}, {})", c, cnums(b))).collect::<Vec<_>>())
 }
 
-fn record(sink: &mut Sink, inp: Input, extra_tags: &[&str]) {
+pub fn record(sink: &mut Sink, inp: Input, extra_tags: &[&str]) {
     let (start, built, segs) = match &inp {
         Input::Raw { start, segs } => (*start, None, segs.clone()),
         Input::Stream { framing, start, parts } => {
@@ -455,14 +455,14 @@ fn record(sink: &mut Sink, inp: Input, extra_tags: &[&str]) {
 }
 
 // ------------------------------------------------------------------ generators
-fn r4(rng: &mut Rng) -> [u8; 4] {
+pub fn r4(rng: &mut Rng) -> [u8; 4] {
     match rng.below(4) {
         0 => [b'E', b'C', b'U', b'0' + rng.below(10) as u8],
         1 => [rng.below(256) as u8, 0, 0, 0],
         _ => [rng.below(256) as u8, rng.below(256) as u8, rng.below(256) as u8, rng.below(256) as u8],
     }
 }
-fn rbytes(rng: &mut Rng, n: usize, mode: u64) -> Vec<u8> {
+pub fn rbytes(rng: &mut Rng, n: usize, mode: u64) -> Vec<u8> {
     // mode 0: uniform; 1: small alphabet made of marker letters; 2: zeros/ff; 3: printable
     (0..n)
         .map(|_| match mode {
@@ -473,7 +473,7 @@ fn rbytes(rng: &mut Rng, n: usize, mode: u64) -> Vec<u8> {
         })
         .collect()
 }
-fn gen_msg(rng: &mut Rng, max_payload: usize) -> AMsg {
+pub fn gen_msg(rng: &mut Rng, max_payload: usize) -> AMsg {
     let htyp = match rng.below(6) {
         0 => 0x20 | (rng.below(32) as u8),
         1 => 0x35,
@@ -499,7 +499,7 @@ fn gen_msg(rng: &mut Rng, max_payload: usize) -> AMsg {
         payload,
     }
 }
-fn gen_garbage(rng: &mut Rng, max: usize) -> Segs {
+pub fn gen_garbage(rng: &mut Rng, max: usize) -> Segs {
     let n = rng.size(max as u64) as usize;
     if n == 0 {
         return vec![];
@@ -520,7 +520,7 @@ fn gen_garbage(rng: &mut Rng, max: usize) -> Segs {
     v.truncate(n);
     vec![(1, v)]
 }
-fn gen_stream(rng: &mut Rng, max_msgs: u64, max_payload: usize, max_garbage: usize) -> Input {
+pub fn gen_stream(rng: &mut Rng, max_msgs: u64, max_payload: usize, max_garbage: usize) -> Input {
     let framing = rng.below(2) as u8;
     let n = rng.size(max_msgs);
     let garbage_mode = rng.below(4); // 0 none, 1 everywhere, 2 only between, 3 random
@@ -548,7 +548,7 @@ fn gen_stream(rng: &mut Rng, max_msgs: u64, max_payload: usize, max_garbage: usi
     Input::Stream { framing, start, parts }
 }
 /// malformed family: valid streams damaged in ways that exercise the resync logic
-fn gen_malformed(rng: &mut Rng) -> Input {
+pub fn gen_malformed(rng: &mut Rng) -> Input {
     let start = rng.below(1000) as u32;
     let base = gen_stream(rng, 5, 24, 12);
     let (framing, parts) = match base {
@@ -626,12 +626,12 @@ fn gen_malformed(rng: &mut Rng) -> Input {
     Input::Raw { start, segs: if data.is_empty() { vec![] } else { vec![(1, data)] } }
 }
 
-fn plain(htyp: u8, payload: &[u8]) -> AMsg {
+pub fn plain(htyp: u8, payload: &[u8]) -> AMsg {
     AMsg { secs: 1_700_000_000, micros: 123_456, secu: *b"ECU1", htyp, mcnt: 7, ecu: *b"ECUX", sid: [0, 0, 0, 9], ts: 0x01020304, vmm: 0x41, noar: 1,
         apid: *b"APID", ctid: *b"CTID", payload: if payload.is_empty() { vec![] } else { vec![(1, payload.to_vec())] } }
 }
 
-fn corpus(sink: &mut Sink) {
+pub fn corpus(sink: &mut Sink) {
     // C01-1 (DESIGN appendix A): one 11 byte serial message -- the repaired defect
     record(sink, Input::Raw { start: 0, segs: vec![(1, b"DLS\x01\x20\x07\x00\x07abc".to_vec())] }, &["corpus", "c01_1"]);
     record(sink, Input::Stream { framing: 1, start: 0, parts: vec![Part::M(plain(0x20, b"abc"))] }, &["corpus", "c01_1"]);
@@ -664,7 +664,7 @@ fn corpus(sink: &mut Sink) {
     }
 }
 
-fn near_max(sink: &mut Sink, rng: &mut Rng) {
+pub fn near_max(sink: &mut Sink, rng: &mut Rng) {
     for f in 0..2u8 {
         for htyp in [0x20u8, 0x3f] {
             let mut m = plain(htyp, b"");
@@ -677,7 +677,7 @@ fn near_max(sink: &mut Sink, rng: &mut Rng) {
     }
 }
 
-fn flag_product(sink: &mut Sink, rng: &mut Rng, all_garbage_lengths: bool) {
+pub fn flag_product(sink: &mut Sink, rng: &mut Rng, all_garbage_lengths: bool) {
     // all 32 flag sets x both byte orders are the low 5 bits + bit 1 of htyp = all values 0..63 (version bits vary too)
     for f in 0..2u8 {
         for low in 0..32u8 {
